@@ -143,12 +143,20 @@ func (c *StringScanner) PeekColumn() int {
 // Unread puts the specified character to the top of the stream.
 func (c *StringScanner) Unread() {
 	// Skip if we are at the beginning
-	if c.position < -1 {
+	if c.position < 0 {
 		return
 	}
 
 	// Update the current position
 	c.position--
+
+	// The end-of-input slot and a CR that belongs to CRLF / LFCR
+	// did not change line and column when they were read
+	unreadChar := c.charAt(c.position + 1)
+	if c.position+1 >= len(c.content) ||
+		(unreadChar == '\r' && !c.isLine(c.charAt(c.position), unreadChar, c.charAt(c.position+2))) {
+		return
+	}
 
 	// Update line and columns (optimization)
 	if c.column > 0 {
